@@ -481,6 +481,14 @@ def stream_matrix(c):
                 jobs.append((tr.Tool(base.name, base.args, data, base.files, base.outputs, base.kind, base.label), name + "@file"))
     for t in option_cases():
         jobs.append((t, "options"))
+    # command lines nobody wrote a case for: every executable with generic hostile argument vectors
+    hostile = [["--help"], ["-h"], ["--bogus"], ["-"], ["--"], [""], ["-f"], ["--fields"], ["-\xff"], ["a" * 5000], ["-f", "1", "-f", "2"], ["--", "--", "x"],
+               ["-1"], ["99999999999999999999999"], ["-d"], ["-w"], ["-j"], ["-n", "-1"], ["--number", "abc"], ["-c"], ["/nonexistent/file"], ["{W}"]]
+    if c.tier == "quick":
+        hostile = [h for i, h in enumerate(hostile) if (i + c.seed) % 2 == 0] + [["--help"], [""]]
+    for name in tr.ALL_EXECUTABLES:
+        for h in hostile:
+            jobs.append((tr.Tool(name, h, b"a b\tc\n\nYQ==\n", label=name + "-hostile-args"), "options"))
     return jobs
 
 
